@@ -474,18 +474,50 @@ def translate(repo):
     nf_subst = [(r"\(\s*derivedIt1\s*-\s*derivedIt2\s*\)", "a"), (r"\(\s*derivedIt2\s*-\s*derivedIt1\s*\)", "b"),
                 (r"derivedIt1\s*-\s*derivedIt2", "a"), (r"derivedIt2\s*-\s*derivedIt1", "b"),
                 (r"\(\s*derivedIt1\s*==\s*derivedIt2\s*\)", "p"), (r"derivedIt1\s*==\s*derivedIt2", "p")]
-    for op, sym, canon in (("lt", "<", "a < 0"), ("le", "<=", "a <= 0"), ("gt", ">", "a > 0"), ("ge", ">=", "a >= 0"), ("ne", "!=", "!p")):
+    # relational operators (fix C16_facade_order_by_base): `if constexpr (models<BaseIterLessOp,T1,T2>()) return <base
+    # iterators compared>; else return <sign of it1 - it2>;` -- two pieces per operator
+    bacc = r"(?:Dune\s*::\s*)?IteratorFacadeAccess\s*::\s*baseIterator\s*\(\s*derivedIt%d\s*\)"
+    nf_base_subst = [(r"\(\s*%s\s*<\s*%s\s*\)" % (bacc % 1, bacc % 2), "p"), (r"\(\s*%s\s*<\s*%s\s*\)" % (bacc % 2, bacc % 1), "q"),
+                     (r"%s\s*<\s*%s" % (bacc % 1, bacc % 2), "p"), (r"%s\s*<\s*%s" % (bacc % 2, bacc % 1), "q"),
+                     (r"%s\s*>\s*%s" % (bacc % 1, bacc % 2), "q"), (r"%s\s*>\s*%s" % (bacc % 2, bacc % 1), "p")]
+    nf_branch = re.compile(r"if\s+constexpr\s*\(\s*(?:Dune\s*::\s*)?models\s*<\s*Impl\s*::\s*Concepts\s*::\s*BaseIterLessOp\s*,\s*T1\s*,\s*T2\s*>\s*\(\s*\)\s*\)"
+                           r"\s*return([^;]*);\s*else\s*return([^;]*);\s*$")
+
+    def nf_rel(sym, which):
         def occ():
             res = []
             rx = re.compile(r"operator\s*%s\s*\(\s*const\s+IteratorFacade\s*<\s*T1\s*,[^()]*>\s*&\s*it1\s*,\s*const\s+IteratorFacade\s*<\s*T2\s*,[^()]*>\s*&\s*it2\s*\)" % re.escape(sym))
             for m in rx.finditer(fac):
-                r = returns(body_after(fac, m.end()))
-                if len(r) != 1:
-                    res.append(TranslateError("body of IteratorFacade operator%s not understood" % sym))
-                else:
+                body = body_after(fac, m.end())
+                mm = nf_branch.search(body.strip())
+                r = returns(body)
+                if mm:
+                    res.append(subst(mm.group(1), nf_base_subst) if which == "base" else subst(drop_casts(mm.group(2)), nf_subst))
+                elif len(r) == 1 and which == "dist":
                     res.append(subst(drop_casts(r[0]), nf_subst))
+                elif len(r) == 1:
+                    res.append(TranslateError("IteratorFacade operator%s does not compare the base iterators" % sym))
+                else:
+                    res.append(TranslateError("body of IteratorFacade operator%s not understood" % sym))
             return res
-        G.piece("nf_" + op, "IteratorFacade operator %s; a = it1 - it2, b = it2 - it1, atom a = (it1 == it2)" % sym, canon, safe(occ), 1)
+        return safe(occ)
+    for op, sym, canon, cbase in (("lt", "<", "a < 0", "p"), ("le", "<=", "a <= 0", "!q"), ("gt", ">", "a > 0", "q"), ("ge", ">=", "a >= 0", "!p")):
+        G.piece("nf_" + op, "IteratorFacade operator %s, derived classes without comparable base iterators; a = it1 - it2, b = it2 - it1" % sym,
+                canon, nf_rel(sym, "dist"), 1)
+        G.piece("nf_%s_base" % op, "IteratorFacade operator %s, derived classes with base iterators; atom a = (base1 < base2), atom b = (base2 < base1)" % sym,
+                cbase, nf_rel(sym, "base"), 1)
+
+    def nf_ne():
+        res = []
+        rx = re.compile(r"operator\s*!=\s*\(\s*const\s+IteratorFacade\s*<\s*T1\s*,[^()]*>\s*&\s*it1\s*,\s*const\s+IteratorFacade\s*<\s*T2\s*,[^()]*>\s*&\s*it2\s*\)")
+        for m in rx.finditer(fac):
+            r = returns(body_after(fac, m.end()))
+            if len(r) != 1:
+                res.append(TranslateError("body of IteratorFacade operator!= not understood"))
+            else:
+                res.append(subst(drop_casts(r[0]), nf_subst))
+        return res
+    G.piece("nf_ne", "IteratorFacade operator !=; atom a = (it1 == it2)", "!p", safe(nf_ne), 1)
     nfc = safe(lambda: [class_text(fac, r"class\s+IteratorFacade\s*\{")])
     nf_cls = nfc[0] if isinstance(nfc[0], str) else ""
     G.piece("nf_subAssign_arg", "IteratorFacade: it -= n does derived() += (.); a = n", "-a",
